@@ -446,6 +446,19 @@ theorem runOut_sim (cfg : Cfg) (ops : List Op) : ∀ (bases : List Nat) (a : Are
           · rw [herr2]; exact Or.inr rfl
         · rw [herr]; exact Or.inr rfl
 
+theorem admRun_of_check (cfg : Cfg) (ops : List Op) : ∀ (nbs : List Nat) (a : Arena),
+    admCheck cfg nbs a ops = true → AdmRun cfg nbs a ops := by
+  induction ops with
+  | nil => intro _ _ _; trivial
+  | cons op ops ih =>
+    intro nbs a h
+    simp only [admCheck, Bool.and_eq_true, decide_eq_true_eq] at h
+    refine ⟨h.1, ?_⟩
+    intro a1 o he
+    have h2 := h.2
+    rw [he] at h2
+    exact ih _ _ h2
+
 /-! ### a freshly created arena -/
 
 theorem wf_create {n : Nat} (init : Nat) (hn : n ≤ maxBuffers) : WF (create n init) := by
